@@ -11,6 +11,10 @@ R06.2 completion discipline: a store of COMPLETE happens only under the fact (st
 R06.3 flush drains: _ctx_mgr_flush_* returns NULL only over the edge "manager flush returned NULL" and otherwise
       returns resubmit's non-NULL result; each assembly *_mb_mgr_flush_* reaches its `return NULL` only through
       branches on the manager's occupancy fields and stores nothing to the manager on the way.
+R06.5 field width: every write at a fixed offset into a scalar field of the manager struct (unused_lanes,
+      num_lanes_inuse) starts at the field and has the field's width.
+R06.6 struct mirror: the offsets the assembly uses for job / manager / lane fields (nasm struct symbols) equal the
+      offsets of the same members in the C structs.
 R06.4 caller-owned fields: no store anywhere targets user_data; in the manager assembly every store goes to the
       own stack, the manager argument, or a job pointer loaded from the manager's lane table - never through a
       data pointer.
@@ -66,7 +70,7 @@ def run(chk):
     chk.floor("ctx units", len(ctxmods), 28)
     chk.trusted += ["clang -O0 IR mirrors the ctx-layer C", "nasm struct offsets (ABS symbols) name the manager fields"]
     chk.assumptions += ["lane-stack push/pop balance and lane-index arithmetic in the assembly managers are NOT decided",
-                        "8 SHA-1/SHA-256 flush managers call *_opt_x1, whose summary cannot prove rdi is preserved (it is unless zero blocks are requested); their stores after that call have unknown provenance and are counted, not judged"]
+                        "the *_opt_x1 kernels are summarised in the context of their call sites (known-bits facts show the block count is non-zero there), which is what proves that they preserve the manager pointer"]
     n_resub = 0
     for src, M in sorted(ctxmods.items()):
         PROC = M.enum_value("ISAL_HASH_CTX_STS_PROCESSING")
@@ -181,7 +185,14 @@ def run(chk):
     # ---------------- assembly managers
     lib = x86.Library(units)
     objs = sorted({k[0] for k, n in lib.entry_list if MGR_ASM.match(n)})
-    res = par.map_objects(lib, asm_worker, objs)
+    structs = {}
+    for src, M in ctxmods.items():
+        algo = src.split("_mb/")[0].upper()
+        d = structs.setdefault(algo, {})
+        for sn, ds in M.distructs.items():
+            if sn.startswith("ISAL_%s_" % algo):
+                d.setdefault(sn, ds)
+    res = par.map_objects(lib, asm_worker, objs, extra={"structs": structs})
     tot = collections.Counter()
     for objname in sorted(res):
         r = res[objname]
@@ -194,6 +205,10 @@ def run(chk):
                 chk.samples.append(s)
     chk.obligations["R06.3-asm"] = [tot["flush"], tot["flush"] - len({f.function for f in chk.findings if f.rule == "R06.3" and f.obj.endswith(".o")})]
     chk.obligations["R06.4-asm"] = [tot["stores"], tot["stores"] - len([f for f in chk.findings if f.rule == "R06.4" and f.obj.endswith(".o")])]
+    chk.obligations["R06.6"] = [tot["mirror_fields"], tot["mirror_fields"] - len([f for f in chk.findings if f.rule == "R06.6"])]
+    chk.obligations["R06.5"] = [tot["scalar_field_accesses"], tot["scalar_field_accesses"] - len([f for f in chk.findings if f.rule == "R06.5"])]
+    chk.floor("struct-mirror fields compared", tot["mirror_fields"], 300)
+    chk.floor("scalar manager field accesses", tot["scalar_field_accesses"], 100)
     chk.floor("assembly flush managers", tot["flush"], 23)
     chk.floor("assembly manager stores classified", tot["stores"], 1200)
     chk.extra["asm_manager_store_classes"] = {k: v for k, v in tot.items() if k.startswith("cls:")}
@@ -216,6 +231,46 @@ def asm_worker(lib, objname, extra):
         dp = abs_syms.get("_data_ptr", abs_syms.get("_args_data_ptr"))
         lens = abs_syms.get("_lens")
         ldata = abs_syms.get("_ldata")
+        # ---- R06.6 the assembly's struct mirror (nasm ABS symbols) agrees with the C structs (DWARF)
+        algo = name.split("_")[1].upper()
+        st = (extra or {}).get("structs", {}).get(algo, {})
+        job = st.get("ISAL_%s_JOB" % algo)
+        mgr = st.get("ISAL_%s_MB_JOB_MGR" % algo)
+        lane = st.get("ISAL_%s_LANE_DATA" % algo)
+        if job and mgr and lane and "mirror" not in out["counts"]:
+            out["counts"]["mirror"] += 1
+            args_t = [m for m in mgr["members"] if m["name"] == "args"]
+            args = st.get(args_t[0]["type"]) if args_t else None
+            want = {}
+            for m in job["members"]:
+                want["_" + m["name"]] = m["off"]
+            for m in mgr["members"]:
+                want["_" + m["name"]] = m["off"]
+            for m in lane["members"]:
+                want["_" + m["name"]] = m["off"]
+            if args:
+                for m in args["members"]:
+                    want["_args_" + m["name"]] = m["off"] + args_t[0]["off"]
+            want["_LANE_DATA_size"] = lane["size"]
+            for sym, off in sorted(want.items()):
+                if sym in abs_syms:
+                    out["counts"]["mirror_fields"] += 1
+                    if abs_syms[sym] != off:
+                        add("R06.6", name, "struct-mirror:" + sym, "the assembly places %s at offset %d, the C struct has it at %d: the managers read and write a different field than the C layer" % (sym, abs_syms[sym], off), f.entry, key[1])
+        # ---- R06.5 fixed-offset accesses to scalar manager fields use the field's width
+        if mgr:
+            scal = [(m["off"], m["size"], m["name"]) for m in mgr["members"] if not m["type"].endswith("[]") and not m["type"].startswith("ISAL_")]
+            for b in f.blocks.values():
+                for i in b:
+                    av = r.maddr.get(i.addr)
+                    if av is None or av[1] or av[0][0] != "init" or av[0][1] != "RDI" or not (i.writes_mem_operand() or i.reads_mem_operand()):
+                        continue
+                    sz = i.memsize()
+                    for (mo, ms, mn) in scal:
+                        if mo <= av[0][2] < mo + ms and sz:
+                            out["counts"]["scalar_field_accesses"] += 1
+                            if i.writes_mem_operand() and (av[0][2] != mo or sz != ms):
+                                add("R06.5", name, "field-width:" + mn, "`%s` writes %d byte(s) at offset %d of the %d-byte manager field %s" % (i.text.strip(), sz, av[0][2] - mo, ms, mn), i.addr, key[1])
         # ---- R06.4 store provenance
         for b in f.blocks.values():
             for i in b:
@@ -231,7 +286,7 @@ def asm_worker(lib, objname, extra):
                     continue
                 rs = absint.roots(v)
                 if rs is None:
-                    out["counts"]["cls:unknown-after-opt_x1"] += 1
+                    out["counts"]["cls:unknown"] += 1
                     continue
                 lds = [t for t in rs if isinstance(t, tuple) and t[0] == "ld"]
                 if lds:
